@@ -133,7 +133,8 @@ func hsmsWorker(w *iso.Worker) {
 				go func(k int) {
 					defer wg.Done()
 					<-start
-					for rep := 0; rep < 50; rep++ {
+					// many repetitions: on a loaded machine the goroutines of one batch overlap only now and then
+					for rep := 0; rep < 600; rep++ {
 						together[k] = summ(frames[k])
 					}
 				}(k)
